@@ -431,6 +431,13 @@ def invariants(env, R, bad):
             path = f'{streams[mf["stream"]]["directory"]}/{blobs[mf["blob"]]["filename"]}'
             if path not in listing:
                 bad('blob-file-missing', f'media_file {mf["name"]}: blob file {path} is not on disk')
+            else:
+                # "every media file has its blob": the row describes the file that is there
+                raw = (env.w.blob_folder / path).read_bytes()
+                b = blobs[mf['blob']]
+                if len(raw) != b['size'] or hashlib.sha1(raw).hexdigest() != b['sha1_hash']:
+                    bad('blob-row-stale', f'media_file {mf["name"]}: the Blob row says {b["size"]} bytes sha1 {b["sha1_hash"][:12]}, '
+                        f'the file {path} has {len(raw)} bytes sha1 {hashlib.sha1(raw).hexdigest()[:12]}')
     for (mpk, kpk) in links:
         if mpk not in files:
             bad('dangling|mediafile_keys.media', f'key link ({mpk},{kpk}) references a missing media file')
